@@ -67,6 +67,73 @@ theorem listTill_sound {α : Type} (p : List Tok → Option (α × List Tok)) (r
       · cases h
   · cases h
 
+/-- renderings one after the other -/
+def rCat {α : Type} (r : α → List Tok) : List α → List Tok
+  | [] => []
+  | a :: as => r a ++ rCat r as
+
+/-- what `many` accepts is its elements' renderings one after the other -/
+theorem many_sound {α : Type} (p : List Tok → Option (α × List Tok)) (r : α → List Tok)
+    (hp : ∀ ts a r', p ts = some (a, r') → ts = r a ++ r') :
+    ∀ k ts as r', many p k ts = (as, r') → ts = rCat r as ++ r' := by
+  intro k
+  induction k with
+  | zero =>
+    intro ts as r' h
+    simp only [many, Prod.mk.injEq] at h
+    obtain ⟨h1, h2⟩ := h; subst h1; subst h2; rfl
+  | succ k ih =>
+    intro ts as r' h
+    simp only [many] at h
+    split at h
+    · simp only [Prod.mk.injEq] at h
+      obtain ⟨h1, h2⟩ := h; subst h1; subst h2; rfl
+    · next a r0 hpa =>
+      simp only [Prod.mk.injEq] at h
+      obtain ⟨h1, h2⟩ := h; subst h1; subst h2
+      have e0 := hp _ _ _ hpa
+      have e1 := ih r0 _ _ rfl
+      simp only [rCat, List.append_assoc]
+      rw [← e1, ← e0]
+
+theorem many_none {α : Type} (p : List Tok → Option (α × List Tok)) (k : Nat) (ts : List Tok) (h : p ts = none) :
+    many p k ts = ([], ts) := by
+  cases k <;> simp [many, h]
+
+/-- `many` reads back renderings put one after the other, when each element is read back before whatever may
+    follow it (`Q`), and the parser does not accept what follows the last -/
+theorem many_complete {α : Type} (p : List Tok → Option (α × List Tok)) (r : α → List Tok) (rest : List Tok)
+    (Q : List Tok → Prop) (hQ : Q rest) (hnone : p rest = none) : ∀ (as : List α),
+    (∀ a ∈ as, ∀ tail, Q tail → p (r a ++ tail) = some (a, tail) ∧ Q (r a ++ tail)) →
+    Q (rCat r as ++ rest) ∧ ∀ k, as.length ≤ k → many p k (rCat r as ++ rest) = (as, rest) := by
+  intro as
+  induction as with
+  | nil =>
+    intro _
+    refine ⟨hQ, ?_⟩
+    intro k _
+    exact many_none p k _ hnone
+  | cons a as ih =>
+    intro hp
+    obtain ⟨hq, hm⟩ := ih (fun x hx => hp x (List.mem_cons_of_mem _ hx))
+    have h1 := hp a (by simp) _ hq
+    refine ⟨by simpa [rCat] using h1.2, ?_⟩
+    intro k hk
+    cases k with
+    | zero => simp at hk
+    | succ k =>
+      have h2 := hm k (by simp at hk; omega)
+      simp only [rCat, List.append_assoc, many, h1.1, h2]
+
+theorem rCat_length_ge {α : Type} (r : α → List Tok) : ∀ as : List α, (∀ a ∈ as, 1 ≤ (r a).length) →
+    as.length ≤ (rCat r as).length
+  | [], _ => by simp [rCat]
+  | a :: as, h => by
+    have ih := rCat_length_ge r as (fun x hx => h x (List.mem_cons_of_mem _ hx))
+    have := h a (by simp)
+    simp only [rCat, List.length_append, List.length_cons]
+    omega
+
 /-! ### the mutual renderers are `rSep` of their element renderers -/
 
 theorem rExs_eq (g : Gram) : ∀ es : List Exp, rExs g es = rSep (rEx g) .comma es
@@ -96,6 +163,10 @@ theorem rSubs_eq (g : Gram) : ∀ ss : List (Sub Fac), rSubs g ss = rSep (rSub g
   | e :: e' :: es => by
     have := rSubs_eq g (e' :: es)
     simp only [rSubs, rSep, this]
+
+theorem rSels_eq (g : Gram) : ∀ ss : List (Sel Fac), rSels g ss = rCat (rSel g) ss
+  | [] => by simp [rSels, rCat]
+  | s :: ss => by simp only [rSels, rCat, rSels_eq g ss]
 
 theorem rArgs_eq (g : Gram) : ∀ ss : List (Arg Fac), rArgs g ss = rSep (rArg g) .comma ss
   | [] => by simp [rArgs, rSep]
@@ -286,7 +357,7 @@ theorem binOp_some (g : Gram) (t : Tok) (o : Op) (h : g.binOp? t = some o) :
     · cases h
   | _ => simp [Gram.binOp?] at h
 
-/-- the seven claims for fuel `n` -/
+/-- the eight claims for fuel `n` -/
 def PR (g : Gram) (n : Nat) : Prop :=
   (∀ ts f r, pFac g n ts = some (f, r) → ts = rFac g f ++ r) ∧
   (∀ ts ps r, pChain g n ts = some (ps, r) → ts = rRest g ps ++ r ∧ OpsIn g.N ps) ∧
@@ -294,18 +365,26 @@ def PR (g : Gram) (n : Nat) : Prop :=
   (∀ ts e r, pEx g n ts = some (e, r) → ts = rEx g e ++ r) ∧
   (∀ ts s r, pSub g n ts = some (s, r) → ts = rSub g s ++ r) ∧
   (∀ ts a r, pArg g n ts = some (a, r) → ts = rArg g a ++ r) ∧
-  (∀ ts a r, pEnt g n ts = some (a, r) → ts = rEnt g a ++ r)
+  (∀ ts a r, pEnt g n ts = some (a, r) → ts = rEnt g a ++ r) ∧
+  (∀ ts s r, pSel g n ts = some (s, r) → ts = rSel g s ++ r)
+
+theorem pName_sound : ∀ ts a r', pName ts = some (a, r') → ts = (fun z => [Tok.id z]) a ++ r' := by
+  intro ts a r' h
+  unfold pName at h
+  split at h
+  · obtain ⟨h1, h2⟩ := Prod.mk.inj (Option.some.inj h); subst h1; subst h2; rfl
+  · cases h
 
 theorem post_eq {f0 f : Fac} {r0 r : List Tok} (h : some (post f0 r0) = some (f, r)) : post f0 r0 = (f, r) :=
   Option.some.inj h
 
 theorem pr_step (g : Gram) (n : Nat) (ih : PR g n) : PR g (n + 1) := by
-  obtain ⟨ihF, ihC, ihT, ihE, ihS, ihA, ihN⟩ := ih
+  obtain ⟨ihF, ihC, ihT, ihE, ihS, ihA, ihN, ihL⟩ := ih
   have hRow : ∀ ts (row : List Exp) r', (fun ts => sepBy (pEx g n) .sp ts.length ts) ts = some (row, r') → ts = rRow g row ++ r' := by
     intro ts row r' h
     rw [rRow_eq]
     exact (sepBy_sound (pEx g n) (rEx g) .sp ihE _ _ _ _ h).1
-  refine ⟨?_, ?_, ?_, ?_, ?_, ?_, ?_⟩
+  refine ⟨?_, ?_, ?_, ?_, ?_, ?_, ?_, ?_⟩
   · intro ts f r h
     simp only [pFac] at h
     split at h
@@ -320,17 +399,19 @@ theorem pr_step (g : Gram) (n : Nat) (ih : PR g n) : PR g (n + 1) := by
         rw [e1, ← rArgs_eq]
         simpa [rFac] using this
       · cases h
-    · -- slice
+    · -- a name, with or without subscripts
+      next x r0 _ =>
       split at h
-      · next subs r' hl =>
-        have e1 := (sepBy_sound (pSub g n) (rSub g) .comma ihS _ _ _ _ hl).1
+      · next r' heq =>
+        have e1 := many_sound (pSel g n) (rSel g) ihL _ _ _ _ heq
         have := post_render g _ _ _ _ (post_eq h)
-        rw [e1, ← rSubs_eq]
+        rw [e1]
+        simpa [rFac, rCat] using this
+      · next sels r' _ heq =>
+        have e1 := many_sound (pSel g n) (rSel g) ihL _ _ _ _ heq
+        have := post_render g _ _ _ _ (post_eq h)
+        rw [e1, ← rSels_eq]
         simpa [rFac] using this
-      · cases h
-    · -- variable
-      have := post_render g _ _ _ _ (post_eq h)
-      simpa [rFac] using this
     · -- matrix
       split at h
       · next rows r' hl =>
@@ -507,11 +588,37 @@ theorem pr_step (g : Gram) (n : Nat) (ih : PR g n) : PR g (n + 1) := by
         obtain ⟨h1, h2⟩ := Prod.mk.inj (Option.some.inj h); subst h1; subst h2
         rw [e1]; simp [rEnt]
       · cases h
+  · intro ts s r h
+    simp only [pSel] at h
+    split at h
+    · split at h
+      · next subs r' hl =>
+        have e1 := (sepBy_sound (pSub g n) (rSub g) .comma ihS _ _ _ _ hl).1
+        obtain ⟨h1, h2⟩ := Prod.mk.inj (Option.some.inj h); subst h1; subst h2
+        rw [e1, ← rSubs_eq]; simp [rSel]
+      · cases h
+    · split at h
+      · next subs r' hl =>
+        have e1 := (sepBy_sound (pSub g n) (rSub g) .comma ihS _ _ _ _ hl).1
+        obtain ⟨h1, h2⟩ := Prod.mk.inj (Option.some.inj h); subst h1; subst h2
+        rw [e1, ← rSubs_eq]; simp [rSel]
+      · cases h
+    · split at h
+      · next ys r' hl =>
+        have e1 := (sepBy_sound pName (fun z => [Tok.id z]) .swz pName_sound _ _ _ _ hl).1
+        obtain ⟨h1, h2⟩ := Prod.mk.inj (Option.some.inj h); subst h1; subst h2
+        rw [e1]; simp [rSel]
+      · cases h
+    · obtain ⟨h1, h2⟩ := Prod.mk.inj (Option.some.inj h); subst h1; subst h2
+      simp [rSel]
+    · obtain ⟨h1, h2⟩ := Prod.mk.inj (Option.some.inj h); subst h1; subst h2
+      simp [rSel]
+    · cases h
 
 theorem pr_all (g : Gram) : ∀ n, PR g n
   | 0 => ⟨fun _ _ _ h => by simp [pFac] at h, fun _ _ _ h => by simp [pChain] at h, fun _ _ _ h => by simp [pForm] at h,
           fun _ _ _ h => by simp [pEx] at h, fun _ _ _ h => by simp [pSub] at h, fun _ _ _ h => by simp [pArg] at h,
-          fun _ _ _ h => by simp [pEnt] at h⟩
+          fun _ _ _ h => by simp [pEnt] at h, fun _ _ _ h => by simp [pSel] at h⟩
   | n + 1 => pr_step g n (pr_all g n)
 
 /-- whatever its operands are, the tree `formula` returns is the documented grouping of the flat
@@ -542,23 +649,15 @@ theorem pForm_wellgrouped (g : Gram) (n : Nat) (ts : List Tok) (t : Trm) (r : Li
 
 /-! statements and programs -/
 
-theorem pTarget_sound (g : Gram) (n : Nat) (ts : List Tok) (x : Nat) (subs : List (Sub Fac)) (r : List Tok)
-    (h : pTarget g n ts = some (x, subs, r)) : ts = rTarget g x subs ++ r := by
+theorem pTarget_sound (g : Gram) (n : Nat) (ts : List Tok) (x : Nat) (sels : List (Sel Fac)) (r : List Tok)
+    (h : pTarget g n ts = some (x, sels, r)) : ts = rTarget g x sels ++ r := by
   unfold pTarget at h
   split at h
   · next x' r0 =>
-    split at h
-    · next subs' r' hl =>
-      obtain ⟨e1, hne⟩ := sepBy_sound (pSub g n) (rSub g) .comma (pr_all g n).2.2.2.2.1 _ _ _ _ hl
-      simp only [Option.some.injEq, Prod.mk.injEq] at h
-      obtain ⟨h1, h2, h3⟩ := h; subst h1; subst h2; subst h3
-      have : subs'.isEmpty = false := by cases subs' with | nil => exact absurd rfl hne | cons _ _ => rfl
-      rw [e1]; simp [rTarget, this, rSubs_eq]
-    · cases h
-  · next x' r0 _ =>
     simp only [Option.some.injEq, Prod.mk.injEq] at h
-    obtain ⟨h1, h2, h3⟩ := h; subst h1; subst h2; subst h3
-    simp [rTarget]
+    obtain ⟨h1, h2, h3⟩ := h; subst h1
+    have e1 := many_sound (pSel g n) (rSel g) (pr_all g n).2.2.2.2.2.2.2 r0.length r0 sels r (by rw [← h2, ← h3])
+    rw [e1, rTarget, rSels_eq]; rfl
   · cases h
 
 theorem pDefine_sound (g : Gram) (n : Nat) (mu : Bool) (ts : List Tok) (s : Stmt) (r : List Tok)
@@ -638,7 +737,7 @@ def okF (g : Gram) : Fac → Prop
   | .set es => okEs g es
   | .recd bs => bs ≠ [] ∧ okBinds g bs
   | .map ms => okMaps g ms ∧ (ms ≠ [] → allBind (ms.map entM) = none)
-  | .slice _ subs => subs ≠ [] ∧ okSubs g subs
+  | .slice _ sels => sels ≠ [] ∧ okSels g sels
   | .paren t => WellGrouped t ∧ OpsIn g.N t.tail ∧ okL g t
   | .neg f => okF g f
   | .not f => okF g f
@@ -663,6 +762,15 @@ def okSub (g : Gram) : Sub Fac → Prop
 def okSubs (g : Gram) : List (Sub Fac) → Prop
   | [] => True
   | s :: ss => okSub g s ∧ okSubs g ss
+def okSel (g : Gram) : Sel Fac → Prop
+  | .bracket ss => ss ≠ [] ∧ okSubs g ss
+  | .brace ss => ss ≠ [] ∧ okSubs g ss
+  | .dot _ => True
+  | .dotInt _ => True
+  | .swizzle _ ys => ys ≠ []
+def okSels (g : Gram) : List (Sel Fac) → Prop
+  | [] => True
+  | s :: ss => okSel g s ∧ okSels g ss
 def okArg (g : Gram) : Arg Fac → Prop
   | .pos e => okE g e
   | .named _ e => okE g e
@@ -694,7 +802,7 @@ def costF : Fac → Nat
   | .set es => 2 + costEs es
   | .recd bs => 1 + costBinds bs
   | .map ms => 1 + costMaps ms
-  | .slice _ subs => 1 + costSubs subs
+  | .slice _ sels => 1 + costSels sels
   | .paren t => 4 + costT t
   | .neg f => 1 + costF f
   | .not f => 1 + costF f
@@ -718,6 +826,15 @@ def costSub : Sub Fac → Nat
 def costSubs : List (Sub Fac) → Nat
   | [] => 0
   | s :: ss => costSub s + costSubs ss
+def costSel : Sel Fac → Nat
+  | .bracket ss => 1 + costSubs ss
+  | .brace ss => 1 + costSubs ss
+  | .dot _ => 1
+  | .dotInt _ => 1
+  | .swizzle _ _ => 1
+def costSels : List (Sel Fac) → Nat
+  | [] => 0
+  | s :: ss => costSel s + costSels ss
 def costArg : Arg Fac → Nat
   | .pos e => 1 + costE e
   | .named _ e => 1 + costE e
@@ -826,7 +943,7 @@ theorem rFac_head (g : Gram) : ∀ f : Fac, ∃ t r, rFac g f = t :: r ∧ t.isS
   | .set es => ⟨.lc, rExs g es ++ [.rc], by simp [rFac], rfl⟩
   | .recd bs => ⟨.lc, rBinds g bs ++ [.rc], by simp [rFac], rfl⟩
   | .map ms => ⟨.lc, (if ms.isEmpty then [.colon] else rMaps g ms) ++ [.rc], by simp [rFac], rfl⟩
-  | .slice x subs => ⟨.id x, .lb :: (rSubs g subs ++ [.rb]), by simp [rFac], rfl⟩
+  | .slice x sels => ⟨.id x, rSels g sels, by simp [rFac], rfl⟩
   | .paren t => ⟨.lp, rTrm g t ++ [.rp], by simp [rFac], rfl⟩
   | .neg f => ⟨.dash, rFac g f, by simp [rFac], rfl⟩
   | .not f => ⟨.bang, rFac g f, by simp [rFac], rfl⟩
@@ -905,6 +1022,22 @@ theorem costSubs_mem : ∀ ss : List (Sub Fac), ∀ s ∈ ss, costSub s ≤ cost
     · subst hx; omega
     · have := costSubs_mem ss x hx; omega
 
+theorem okSels_mem (g : Gram) : ∀ ss : List (Sel Fac), okSels g ss → ∀ s ∈ ss, okSel g s
+  | [], _, _, h => by cases h
+  | s :: ss, h, x, hx => by
+    simp only [okSels] at h
+    rcases List.mem_cons.mp hx with hx | hx
+    · subst hx; exact h.1
+    · exact okSels_mem g ss h.2 x hx
+
+theorem costSels_mem : ∀ ss : List (Sel Fac), ∀ s ∈ ss, costSel s ≤ costSels ss
+  | [], _, h => by cases h
+  | s :: ss, x, hx => by
+    simp only [costSels]
+    rcases List.mem_cons.mp hx with hx | hx
+    · subst hx; omega
+    · have := costSels_mem ss x hx; omega
+
 theorem okArgs_mem (g : Gram) : ∀ ss : List (Arg Fac), okArgs g ss → ∀ s ∈ ss, okArg g s
   | [], _, _, h => by cases h
   | s :: ss, h, x, hx => by
@@ -982,20 +1115,26 @@ theorem okL_parts (g : Gram) : ∀ t : Trm, okL g t → okF g t.first ∧ ∀ p 
     · subst hp; exact hr.1
     · exact hr.2 p hp
 
+/-- the tokens that apply to the name before them: the bracket of a call, a subscript bracket or brace, the dot of a
+    field access, the comma of a swizzle -/
+def Tok.isApp : Tok → Bool
+  | .lp => true | .lb => true | .lc => true | .dot => true | .swz => true
+  | _ => false
+
 /-- what may follow a formula: nothing, or a token that continues neither an operand (transpose
-    mark, call or subscript bracket) nor the chain of operators -/
+    mark, call bracket, subscript) nor the chain of operators -/
 def NoCont (g : Gram) (rest : List Tok) : Prop :=
-  ∀ t r, rest = t :: r → g.binOp? t = none ∧ t ≠ .quote ∧ t ≠ .lp ∧ t ≠ .lb
+  ∀ t r, rest = t :: r → g.binOp? t = none ∧ t ≠ .quote ∧ t.isApp = false
 
 /-- what may follow an expression: as for a formula, and not a range operator -/
 def NoContE (g : Gram) (rest : List Tok) : Prop :=
-  ∀ t r, rest = t :: r → g.binOp? t = none ∧ t ≠ .quote ∧ t ≠ .lp ∧ t ≠ .lb ∧ ∀ i, t ≠ .dots i
+  ∀ t r, rest = t :: r → g.binOp? t = none ∧ t ≠ .quote ∧ t.isApp = false ∧ ∀ i, t ≠ .dots i
 
 /-- what may follow an operand -/
-def NoApp (rest : List Tok) : Prop := ∀ t r, rest = t :: r → t ≠ .lp ∧ t ≠ .lb
+def NoApp (rest : List Tok) : Prop := ∀ t r, rest = t :: r → t.isApp = false
 
 theorem NoContE.noCont {g : Gram} {rest : List Tok} (h : NoContE g rest) : NoCont g rest :=
-  fun t r e => let ⟨a, b, c, d, _⟩ := h t r e; ⟨a, b, c, d⟩
+  fun t r e => let ⟨a, b, c, _⟩ := h t r e; ⟨a, b, c⟩
 
 theorem binOp_opTok (g : Gram) (o : Op) (ho : 1 ≤ o.lvl ∧ o.lvl ≤ g.N) : g.binOp? (g.opTok o) = some o := by
   have hl : g.lvlOk o = true := by simp [Gram.lvlOk, ho.1, ho.2]
@@ -1009,7 +1148,7 @@ theorem opTok_cases (g : Gram) (o : Op) : g.opTok o = .dash ∨ g.opTok o = .op 
 
 /-- what follows an operand inside a rendering neither transposes nor applies it -/
 theorem head_rRest (g : Gram) (ps : Rest Fac) (rest : List Tok) (h : NoCont g rest) :
-    ∀ t r, rRest g ps ++ rest = t :: r → t ≠ .quote ∧ t ≠ .lp ∧ t ≠ .lb := by
+    ∀ t r, rRest g ps ++ rest = t :: r → t ≠ .quote ∧ t.isApp = false := by
   intro t r e
   cases ps with
   | nil => simp only [rRest, List.nil_append] at e; exact (h t r e).2
@@ -1018,7 +1157,7 @@ theorem head_rRest (g : Gram) (ps : Rest Fac) (rest : List Tok) (h : NoCont g re
     simp only [rRest, List.cons_append] at e
     have : t = g.opTok o := (List.cons.inj e).1.symm
     rw [this]
-    rcases opTok_cases g o with h' | h' <;> rw [h'] <;> simp
+    rcases opTok_cases g o with h' | h' <;> rw [h'] <;> simp [Tok.isApp]
 
 theorem post_noquote (f : Fac) (rest : List Tok) (h : ∀ t r, rest = t :: r → t ≠ .quote) : post f rest = (f, rest) := by
   cases rest with
@@ -1034,12 +1173,26 @@ theorem noContE_stop (g : Gram) (c : Tok) (x : List Tok) (h : c.isStop = true) :
   intro t r e
   have : t = c := (List.cons.inj e).1.symm
   subst this
-  cases t <;> simp [Tok.isStop] at h <;> simp [Gram.binOp?]
+  cases t <;> simp [Tok.isStop] at h <;> simp [Gram.binOp?, Tok.isApp]
 
 theorem noContE_nil (g : Gram) : NoContE g [] := fun _ _ e => by cases e
 
 theorem isStart_ne (t : Tok) (h : t.isStart = true) : t ≠ .rp ∧ t ≠ .rb ∧ t ≠ .rc ∧ t ≠ .colon := by
   cases t <;> simp [Tok.isStart] at h <;> simp
+
+/-- the first token of a subscript -/
+theorem rSel_head (g : Gram) (s : Sel Fac) : ∃ t r, rSel g s = t :: r ∧ (t = .lb ∨ t = .lc ∨ t = .dot) := by
+  cases s with
+  | bracket ss => exact ⟨.lb, rSubs g ss ++ [.rb], by simp [rSel], Or.inl rfl⟩
+  | brace ss => exact ⟨.lc, rSubs g ss ++ [.rc], by simp [rSel], Or.inr (Or.inl rfl)⟩
+  | dot y => exact ⟨.dot, [.id y], by simp [rSel], Or.inr (Or.inr rfl)⟩
+  | dotInt k => exact ⟨.dot, [.lit k], by simp [rSel], Or.inr (Or.inr rfl)⟩
+  | swizzle y ys => exact ⟨.dot, .id y :: .swz :: rSep (fun z => [.id z]) .swz ys, by simp [rSel], Or.inr (Or.inr rfl)⟩
+
+theorem rSels_head (g : Gram) (s : Sel Fac) (ss : List (Sel Fac)) (rest : List Tok) :
+    ∃ t r, rSels g (s :: ss) ++ rest = t :: r ∧ (t = .lb ∨ t = .lc ∨ t = .dot) := by
+  obtain ⟨t, r, e, h⟩ := rSel_head g s
+  exact ⟨t, r ++ (rSels g ss ++ rest), by simp [rSels, e], h⟩
 
 /-! names followed by a colon or a kind annotation: only a bare name renders like that -/
 
@@ -1060,9 +1213,15 @@ theorem rFac_key (g : Gram) : ∀ (f : Fac) (rest : List Tok) (x : Nat) (t : Tok
   | .call _ _, rest, x, t, r', _, h, hk => by
     simp only [rFac, List.cons_append, List.cons.injEq] at h
     obtain ⟨_, h2, _⟩ := h; subst h2; simp [Tok.isKey] at hk
-  | .slice _ _, rest, x, t, r', _, h, hk => by
-    simp only [rFac, List.cons_append, List.cons.injEq] at h
-    obtain ⟨_, h2, _⟩ := h; subst h2; simp [Tok.isKey] at hk
+  | .slice _ sels, rest, x, t, r', hok, h, hk => by
+    simp only [okF] at hok
+    cases sels with
+    | nil => exact absurd rfl hok.1
+    | cons s ss =>
+      obtain ⟨t0, r0, e0, ht0⟩ := rSels_head g s ss rest
+      simp only [rFac, List.cons_append, e0, List.cons.injEq] at h
+      obtain ⟨_, h2, _⟩ := h; subst h2
+      rcases ht0 with h' | h' | h' <;> subst h' <;> simp [Tok.isKey] at hk
   | .mat _, rest, x, t, r', _, h, _ => by simp [rFac] at h
   | .tup _, rest, x, t, r', _, h, _ => by simp [rFac] at h
   | .set _, rest, x, t, r', _, h, _ => by simp [rFac] at h
@@ -1114,6 +1273,9 @@ theorem rEx_key (g : Gram) (e : Exp) (rest : List Tok) (x : Nat) (tk : Tok) (r' 
     have : tk = .dots i1 := (List.cons.inj h2).1.symm
     subst this; simp [Tok.isKey] at hk
 
+/-- what may follow a subscript: not the comma of a swizzle -/
+def NoSwz (rest : List Tok) : Prop := ∀ t r, rest = t :: r → t ≠ .swz
+
 /-- what follows an element of a list: a separator or a closing bracket -/
 def StopHead (rest : List Tok) : Prop := ∃ c x, rest = c :: x ∧ c.isStop = true
 
@@ -1121,11 +1283,11 @@ theorem noContE_colon (g : Gram) (x : List Tok) : NoContE g (.colon :: x) := by
   intro t r e
   have : t = .colon := (List.cons.inj e).1.symm
   subst this
-  simp [Gram.binOp?]
+  simp [Gram.binOp?, Tok.isApp]
 
-/-- the seven claims for fuel `n` -/
+/-- the eight claims for fuel `n` -/
 def RT (g : Gram) (n : Nat) : Prop :=
-  (∀ f, costF f ≤ n → okF g f → ∀ rest, (∀ t r, rest = t :: r → t ≠ .quote ∧ t ≠ .lp ∧ t ≠ .lb) →
+  (∀ f, costF f ≤ n → okF g f → ∀ rest, (∀ t r, rest = t :: r → t ≠ .quote ∧ t.isApp = false) →
       pFac g n (rFac g f ++ rest) = some (f, rest)) ∧
   (∀ ps, costR ps + 1 ≤ n → OpsIn g.N ps → (∀ p ∈ ps, okF g p.2) → ∀ rest, NoCont g rest →
       pChain g n (rRest g ps ++ rest) = some (ps, rest)) ∧
@@ -1133,7 +1295,8 @@ def RT (g : Gram) (n : Nat) : Prop :=
   (∀ e, costE e ≤ n → okE g e → ∀ rest, NoContE g rest → pEx g n (rEx g e ++ rest) = some (e, rest)) ∧
   (∀ s, costSub s ≤ n → okSub g s → ∀ rest, NoContE g rest → pSub g n (rSub g s ++ rest) = some (s, rest)) ∧
   (∀ a, costArg a ≤ n → okArg g a → ∀ rest, StopHead rest → pArg g n (rArg g a ++ rest) = some (a, rest)) ∧
-  (∀ a, costEnt a ≤ n → okEnt g a → ∀ rest, StopHead rest → pEnt g n (rEnt g a ++ rest) = some (a, rest))
+  (∀ a, costEnt a ≤ n → okEnt g a → ∀ rest, StopHead rest → pEnt g n (rEnt g a ++ rest) = some (a, rest)) ∧
+  (∀ s, costSel s ≤ n → okSel g s → ∀ rest, NoSwz rest → pSel g n (rSel g s ++ rest) = some (s, rest))
 
 /-- a list of expressions between brackets is read back -/
 theorem exList_complete (g : Gram) (n : Nat)
@@ -1279,8 +1442,67 @@ theorem row_complete (g : Gram) (n : Nat)
   · have := rSep_length_ge (rEx g) .sp row (fun a _ => by obtain ⟨t, r', e, _⟩ := rEx_head g a; rw [e]; simp)
     simp only [List.length_append]; omega
 
-theorem noApp_of (rest : List Tok) (h : ∀ t r, rest = t :: r → t ≠ .quote ∧ t ≠ .lp ∧ t ≠ .lb) : NoApp rest :=
+theorem noApp_of (rest : List Tok) (h : ∀ t r, rest = t :: r → t ≠ .quote ∧ t.isApp = false) : NoApp rest :=
   fun t r e => (h t r e).2
+
+theorem pSel_none (g : Gram) (n : Nat) (rest : List Tok) (h : NoApp rest) : pSel g n rest = none := by
+  cases n with
+  | zero => simp [pSel]
+  | succ n =>
+    cases rest with
+    | nil => simp [pSel]
+    | cons t r =>
+      have := h t r rfl
+      cases t <;> simp [Tok.isApp] at this <;> simp [pSel]
+
+theorem pFac_name (g : Gram) (n : Nat) (x : Nat) (r : List Tok) (h : ∀ r', r ≠ .lp :: r') :
+    pFac g (n + 1) (.id x :: r) = (match many (pSel g n) r.length r with
+       | ([], r') => some (post (.var x) r')
+       | (sels, r') => some (post (.slice x sels) r')) := by
+  simp only [pFac] <;> rfl
+
+/-- a list of subscripts between brackets or braces is read back -/
+theorem subs_complete (g : Gram) (n : Nat)
+    (ihS : ∀ s, costSub s ≤ n → okSub g s → ∀ rest, NoContE g rest → pSub g n (rSub g s ++ rest) = some (s, rest))
+    (subs : List (Sub Fac)) (hne : subs ≠ []) (hc : costSubs subs ≤ n) (hok : okSubs g subs)
+    (c : Tok) (hcl : c = .rb ∨ c = .rc) (rest : List Tok) :
+    sepBy (pSub g n) .comma (rSubs g subs ++ c :: rest).length (rSubs g subs ++ c :: rest) = some (subs, c :: rest) := by
+  rw [rSubs_eq]
+  apply sepBy_complete (pSub g n) (rSub g) .comma (c :: rest)
+  · intro t r' e; cases e; rcases hcl with h | h <;> subst h <;> decide
+  · exact hne
+  · intro s hs tail htail
+    apply ihS s (Nat.le_trans (costSubs_mem subs s hs) hc) (okSubs_mem g subs hok s hs)
+    rcases htail with h | ⟨y, h⟩
+    · subst h; exact noContE_stop g _ _ (by rcases hcl with h | h <;> subst h <;> rfl)
+    · subst h; exact noContE_stop g _ _ rfl
+  · have := rSep_length_ge (rSub g) .comma subs (fun s _ => by
+      cases s with
+      | all => simp [rSub]
+      | ex e => obtain ⟨t, r', e1, _⟩ := rEx_head g e; simp [rSub, e1])
+    simp only [List.length_append]; omega
+
+/-- the subscripts after a name are read back -/
+theorem sels_complete (g : Gram) (n : Nat)
+    (ihL : ∀ s, costSel s ≤ n → okSel g s → ∀ rest, NoSwz rest → pSel g n (rSel g s ++ rest) = some (s, rest))
+    (sels : List (Sel Fac)) (hc : costSels sels ≤ n) (hok : okSels g sels) (rest : List Tok) (hna : NoApp rest) :
+    many (pSel g n) (rSels g sels ++ rest).length (rSels g sels ++ rest) = (sels, rest) := by
+  rw [rSels_eq]
+  have := many_complete (pSel g n) (rSel g) rest NoSwz
+    (by intro t r e; have := hna t r e; intro h; subst h; simp [Tok.isApp] at this)
+    (pSel_none g n rest hna) sels
+    (by
+      intro s hs tail hq
+      refine ⟨ihL s (Nat.le_trans (costSels_mem sels s hs) hc) (okSels_mem g sels hok s hs) tail hq, ?_⟩
+      obtain ⟨t, r, e, ht⟩ := rSel_head g s
+      intro t' r' e'
+      rw [e] at e'
+      have : t' = t := (List.cons.inj e').1.symm
+      subst this
+      rcases ht with h | h | h <;> subst h <;> simp)
+  apply this.2
+  have hl := rCat_length_ge (rSel g) sels (fun s _ => by obtain ⟨t, r, e, _⟩ := rSel_head g s; rw [e]; simp)
+  simp only [List.length_append]; omega
 
 /-- the operands that are not prefixed or transposed: what `factor` reads before the optional
     transpose mark -/
@@ -1289,18 +1511,18 @@ theorem rt_base (g : Gram) (n : Nat)
     (ihE : ∀ e, costE e ≤ n → okE g e → ∀ rest, NoContE g rest → pEx g n (rEx g e ++ rest) = some (e, rest))
     (ihS : ∀ s, costSub s ≤ n → okSub g s → ∀ rest, NoContE g rest → pSub g n (rSub g s ++ rest) = some (s, rest))
     (ihA : ∀ a, costArg a ≤ n → okArg g a → ∀ rest, StopHead rest → pArg g n (rArg g a ++ rest) = some (a, rest))
-    (ihN : ∀ a, costEnt a ≤ n → okEnt g a → ∀ rest, StopHead rest → pEnt g n (rEnt g a ++ rest) = some (a, rest)) :
+    (ihN : ∀ a, costEnt a ≤ n → okEnt g a → ∀ rest, StopHead rest → pEnt g n (rEnt g a ++ rest) = some (a, rest))
+    (ihL : ∀ s, costSel s ≤ n → okSel g s → ∀ rest, NoSwz rest → pSel g n (rSel g s ++ rest) = some (s, rest)) :
     ∀ f, f.isBase = true → costF f ≤ n + 1 → okF g f → ∀ rest, NoApp rest →
       pFac g (n + 1) (rFac g f ++ rest) = some (post f rest) := by
   intro f hb hc hok rest hna
   cases f with
   | lit a => simp [rFac, pFac]
   | var x =>
-    cases rest with
-    | nil => simp [rFac, pFac]
-    | cons t r =>
-      have := hna t r rfl
-      cases t <;> simp [rFac, pFac] <;> simp at this
+    have hnlp : ∀ r', rest ≠ .lp :: r' := by
+      intro r' e; have := hna _ _ e; simp [Tok.isApp] at this
+    simp only [rFac, List.cons_append, List.nil_append]
+    rw [pFac_name g n x rest hnlp, many_none _ _ _ (pSel_none g n rest hna)]
   | call x args =>
     simp only [costF] at hc
     simp only [okF] at hok
@@ -1397,25 +1619,22 @@ theorem rt_base (g : Gram) (n : Nat)
         rest
       rw [rSep_map] at hb
       simpa [rFac, rMaps_eq, rEnt_entM] using hb
-  | slice x subs =>
+  | slice x sels =>
     simp only [costF] at hc
     simp only [okF] at hok
-    have hl : sepBy (pSub g n) .comma (rSubs g subs ++ .rb :: rest).length (rSubs g subs ++ .rb :: rest) = some (subs, .rb :: rest) := by
-      rw [rSubs_eq]
-      apply sepBy_complete (pSub g n) (rSub g) .comma (.rb :: rest)
-      · intro t r' e; cases e; decide
-      · exact hok.1
-      · intro s hs tail htail
-        apply ihS s (Nat.le_trans (costSubs_mem subs s hs) (by omega)) (okSubs_mem g subs hok.2 s hs)
-        rcases htail with h | ⟨y, h⟩
-        · subst h; exact noContE_stop g _ _ rfl
-        · subst h; exact noContE_stop g _ _ rfl
-      · have := rSep_length_ge (rSub g) .comma subs (fun s _ => by
-          cases s with
-          | all => simp [rSub]
-          | ex e => obtain ⟨t, r', e1, _⟩ := rEx_head g e; simp [rSub, e1])
-        simp only [List.length_append]; omega
-    simp only [rFac, List.cons_append, List.append_assoc, List.nil_append, pFac, hl]
+    have hm := sels_complete g n ihL sels (by omega) hok.2 rest hna
+    cases sels with
+    | nil => exact absurd rfl hok.1
+    | cons s ss =>
+      have hnlp : ∀ r', rSels g (s :: ss) ++ rest ≠ .lp :: r' := by
+        intro r' e
+        obtain ⟨t0, r0, e0, ht0⟩ := rSels_head g s ss rest
+        rw [e0] at e
+        have : t0 = .lp := (List.cons.inj e).1
+        subst this
+        rcases ht0 with h | h | h <;> cases h
+      simp only [rFac, List.cons_append]
+      rw [pFac_name g n x _ hnlp, hm]
   | paren t =>
     simp only [costF] at hc
     simp only [okF] at hok
@@ -1461,12 +1680,12 @@ theorem noCont_dots (g : Gram) (i : Bool) (r : List Tok) : NoCont g (.dots i :: 
   intro t r' e
   have : t = .dots i := (List.cons.inj e).1.symm
   subst this
-  simp [Gram.binOp?]
+  simp [Gram.binOp?, Tok.isApp]
 
 theorem rt_step (g : Gram) (n : Nat) (ih : RT g n) : RT g (n + 1) := by
-  obtain ⟨ihF, ihC, ihT, ihE, ihS, ihA, ihN⟩ := ih
-  have hbase := rt_base g n ihT ihE ihS ihA ihN
-  refine ⟨?_, ?_, ?_, ?_, ?_, ?_, ?_⟩
+  obtain ⟨ihF, ihC, ihT, ihE, ihS, ihA, ihN, ihL⟩ := ih
+  have hbase := rt_base g n ihT ihE ihS ihA ihN ihL
+  refine ⟨?_, ?_, ?_, ?_, ?_, ?_, ?_, ?_⟩
   · -- factors
     intro f hc hok rest hq
     have hnq : ∀ t r, rest = t :: r → t ≠ .quote := fun t r e => (hq t r e).1
@@ -1488,7 +1707,7 @@ theorem rt_step (g : Gram) (n : Nat) (ih : RT g n) : RT g (n + 1) := by
       | tr f =>
         simp only [costF] at hc
         simp only [okF] at hok
-        have := hbase f hok.1 (by omega) hok.2 (.quote :: rest) (by intro t r e; cases e; simp)
+        have := hbase f hok.1 (by omega) hok.2 (.quote :: rest) (by intro t r e; cases e; rfl)
         simp only [rFac, List.append_assoc, List.cons_append, List.nil_append, this, post]
       | lit _ => simp [Fac.isBase] at hb
       | var _ => simp [Fac.isBase] at hb
@@ -1532,7 +1751,7 @@ theorem rt_step (g : Gram) (n : Nat) (ih : RT g n) : RT g (n + 1) := by
     simp only [rTrm_flat, List.append_assoc, pForm, h1, h2, h3, List.isEmpty_nil, if_true]
   · -- expressions
     intro e hc hok rest hnc
-    have hd : ∀ i r, rest ≠ .dots i :: r := fun i r e => (hnc _ _ e).2.2.2.2 i rfl
+    have hd : ∀ i r, rest ≠ .dots i :: r := fun i r e => (hnc _ _ e).2.2.2 i rfl
     cases e with
     | form t =>
       simp only [costE] at hc
@@ -1624,10 +1843,36 @@ theorem rt_step (g : Gram) (n : Nat) (ih : RT g n) : RT g (n + 1) := by
       simp only [costEnt] at hc; simp only [okEnt] at hok
       have h1 := ihE e (by omega) hok _ hnc
       cases k <;> simp only [rEnt, List.cons_append, List.nil_append, pEnt, h1]
+  · -- subscripts after a name
+    intro s hc hok rest hq
+    cases s with
+    | bracket ss =>
+      simp only [costSel] at hc; simp only [okSel] at hok
+      have hl := subs_complete g n ihS ss hok.1 (by omega) hok.2 .rb (Or.inl rfl) rest
+      simp only [rSel, List.cons_append, List.append_assoc, List.nil_append, pSel, hl]
+    | brace ss =>
+      simp only [costSel] at hc; simp only [okSel] at hok
+      have hl := subs_complete g n ihS ss hok.1 (by omega) hok.2 .rc (Or.inr rfl) rest
+      simp only [rSel, List.cons_append, List.append_assoc, List.nil_append, pSel, hl]
+    | dot y =>
+      cases rest with
+      | nil => simp [rSel, pSel]
+      | cons t r =>
+        have := hq t r rfl
+        cases t <;> simp [rSel, pSel] <;> simp at this
+    | dotInt k => simp [rSel, pSel]
+    | swizzle y ys =>
+      simp only [okSel] at hok
+      have hl : sepBy pName .swz (rSep (fun z => [Tok.id z]) .swz ys ++ rest).length (rSep (fun z => [Tok.id z]) .swz ys ++ rest) = some (ys, rest) := by
+        apply sepBy_complete pName (fun z => [Tok.id z]) .swz rest hq ys hok
+        · intro z _ tail _; rfl
+        · have := rSep_length_ge (fun z => [Tok.id z]) .swz ys (fun _ _ => by simp)
+          simp only [List.length_append]; omega
+      simp only [rSel, List.cons_append, pSel, hl]
 
 theorem rt_all (g : Gram) : ∀ n, RT g n
   | 0 => by
-    refine ⟨?_, ?_, ?_, ?_, ?_, ?_, ?_⟩
+    refine ⟨?_, ?_, ?_, ?_, ?_, ?_, ?_, ?_⟩
     · intro f hc; cases f <;> simp [costF] at hc
     · intro ps hc; omega
     · intro t hc; omega
@@ -1635,49 +1880,36 @@ theorem rt_all (g : Gram) : ∀ n, RT g n
     · intro s hc; cases s <;> simp [costSub] at hc
     · intro a hc; cases a <;> simp [costArg] at hc
     · intro a hc; cases a <;> simp [costEnt] at hc
+    · intro s hc; cases s <;> simp [costSel] at hc
   | n + 1 => rt_step g n (rt_all g n)
 
 /-! statements and programs -/
 
 def okStmt (g : Gram) : Stmt → Prop
   | .define _ _ _ e => okE g e
-  | .assign _ subs e => okSubs g subs ∧ okE g e
-  | .opAssign _ subs _ e => okSubs g subs ∧ okE g e
+  | .assign _ sels e => okSels g sels ∧ okE g e
+  | .opAssign _ sels _ e => okSels g sels ∧ okE g e
 
 def costStmt : Stmt → Nat
   | .define _ _ _ e => costE e
-  | .assign _ subs e => costSubs subs + costE e
-  | .opAssign _ subs _ e => costSubs subs + costE e
+  | .assign _ sels e => costSels sels + costE e
+  | .opAssign _ sels _ e => costSels sels + costE e
 
-theorem subs_complete (g : Gram) (n : Nat) (subs : List (Sub Fac)) (hne : subs ≠ []) (hc : costSubs subs ≤ n) (hok : okSubs g subs)
-    (rest : List Tok) :
-    sepBy (pSub g n) .comma (rSubs g subs ++ .rb :: rest).length (rSubs g subs ++ .rb :: rest) = some (subs, .rb :: rest) := by
-  rw [rSubs_eq]
-  apply sepBy_complete (pSub g n) (rSub g) .comma (.rb :: rest)
-  · intro t r' e; cases e; decide
-  · exact hne
-  · intro s hs tail htail
-    apply (rt_all g n).2.2.2.2.1 s (Nat.le_trans (costSubs_mem subs s hs) hc) (okSubs_mem g subs hok s hs)
-    rcases htail with h | ⟨y, h⟩
-    · subst h; exact noContE_stop g _ _ rfl
-    · subst h; exact noContE_stop g _ _ rfl
-  · have := rSep_length_ge (rSub g) .comma subs (fun s _ => by
-      cases s with
-      | all => simp [rSub]
-      | ex e => obtain ⟨t, r', e1, _⟩ := rEx_head g e; simp [rSub, e1])
-    simp only [List.length_append]; omega
+theorem pTarget_complete (g : Gram) (n : Nat) (x : Nat) (sels : List (Sel Fac)) (hc : costSels sels ≤ n) (hok : okSels g sels)
+    (rest : List Tok) (hrest : NoApp rest) :
+    pTarget g n (rTarget g x sels ++ rest) = some (x, sels, rest) := by
+  have hm := sels_complete g n (rt_all g n).2.2.2.2.2.2.2 sels hc hok rest hrest
+  simp only [rTarget, List.cons_append, pTarget, hm]
 
-theorem pTarget_complete (g : Gram) (n : Nat) (x : Nat) (subs : List (Sub Fac)) (hc : costSubs subs ≤ n) (hok : okSubs g subs)
-    (rest : List Tok) (hrest : ∀ r, rest ≠ .lb :: r) :
-    pTarget g n (rTarget g x subs ++ rest) = some (x, subs, rest) := by
-  cases subs with
+theorem rTarget_noDefine (g : Gram) (n : Nat) (x : Nat) (sels : List (Sel Fac)) (t : Tok) (r : List Tok)
+    (ht : ∀ k, t ≠ .kind k) (ht' : t ≠ .define) : pDefine g n false (rTarget g x sels ++ t :: r) = none := by
+  cases sels with
   | nil =>
-    cases rest with
-    | nil => simp [rTarget, pTarget]
-    | cons t r => cases t <;> first | exact absurd rfl (hrest r) | simp [rTarget, pTarget]
+    cases t <;> first | exact absurd rfl (ht _) | exact absurd rfl ht' | simp [rTarget, rSels, pDefine]
   | cons s ss =>
-    have hl := subs_complete g n (s :: ss) (by simp) hc hok rest
-    simp only [rTarget, List.isEmpty_cons, Bool.false_eq_true, if_false, List.cons_append, List.append_assoc, List.nil_append, pTarget, hl]
+    obtain ⟨t0, r0, e0, ht0⟩ := rSels_head g s ss (t :: r)
+    simp only [rTarget, List.cons_append, e0]
+    rcases ht0 with h | h | h <;> subst h <;> simp [pDefine]
 
 theorem pStmt_complete (g : Gram) (n : Nat) (s : Stmt) (hc : costStmt s ≤ n) (hok : okStmt g s) (rest : List Tok) (hnc : NoContE g rest) :
     pStmt g n (rStmt g s ++ rest) = some (s, rest) := by
@@ -1687,29 +1919,27 @@ theorem pStmt_complete (g : Gram) (n : Nat) (s : Stmt) (hc : costStmt s ≤ n) (
     simp only [okStmt] at hok
     have he := (rt_all g n).2.2.2.1 e hc hok rest hnc
     cases mu <;> cases k <;> simp [rStmt, pStmt, pDefine, he]
-  | assign x subs e =>
+  | assign x sels e =>
     simp only [costStmt] at hc
     simp only [okStmt] at hok
     have he := (rt_all g n).2.2.2.1 e (by omega) hok.2 rest hnc
-    have ht := pTarget_complete g n x subs (by omega) hok.1 (.assign :: (rEx g e ++ rest)) (by intro r h; cases h)
-    have hd : pDefine g n false (rTarget g x subs ++ .assign :: (rEx g e ++ rest)) = none := by
-      unfold rTarget; split <;> simp [pDefine]
-    have hnt : ∀ r, rTarget g x subs ++ .assign :: (rEx g e ++ rest) ≠ .tilde :: r := by
-      intro r h; unfold rTarget at h; split at h <;> simp at h
+    have ht := pTarget_complete g n x sels (by omega) hok.1 (.assign :: (rEx g e ++ rest)) (by intro t r h; cases h; rfl)
+    have hd := rTarget_noDefine g n x sels .assign (rEx g e ++ rest) (by intro k h; cases h) (by intro h; cases h)
+    have hnt : ∀ r, rTarget g x sels ++ .assign :: (rEx g e ++ rest) ≠ .tilde :: r := by
+      intro r h; simp [rTarget] at h
     simp only [rStmt, List.append_assoc, List.cons_append]
     unfold pStmt
     split
     · next r heq => exact absurd heq (hnt r)
     · simp only [hd, ht, he]
-  | opAssign x subs k e =>
+  | opAssign x sels k e =>
     simp only [costStmt] at hc
     simp only [okStmt] at hok
     have he := (rt_all g n).2.2.2.1 e (by omega) hok.2 rest hnc
-    have ht := pTarget_complete g n x subs (by omega) hok.1 (.opAssign k :: (rEx g e ++ rest)) (by intro r h; cases h)
-    have hd : pDefine g n false (rTarget g x subs ++ .opAssign k :: (rEx g e ++ rest)) = none := by
-      unfold rTarget; split <;> simp [pDefine]
-    have hnt : ∀ r, rTarget g x subs ++ .opAssign k :: (rEx g e ++ rest) ≠ .tilde :: r := by
-      intro r h; unfold rTarget at h; split at h <;> simp at h
+    have ht := pTarget_complete g n x sels (by omega) hok.1 (.opAssign k :: (rEx g e ++ rest)) (by intro t r h; cases h; rfl)
+    have hd := rTarget_noDefine g n x sels (.opAssign k) (rEx g e ++ rest) (by intro k h; cases h) (by intro h; cases h)
+    have hnt : ∀ r, rTarget g x sels ++ .opAssign k :: (rEx g e ++ rest) ≠ .tilde :: r := by
+      intro r h; simp [rTarget] at h
     simp only [rStmt, List.append_assoc, List.cons_append]
     unfold pStmt
     split
@@ -1719,8 +1949,8 @@ theorem pStmt_complete (g : Gram) (n : Nat) (s : Stmt) (hc : costStmt s ≤ n) (
 theorem rStmt_nonempty (g : Gram) (s : Stmt) : 1 ≤ (rStmt g s).length := by
   cases s with
   | define mu x k e => cases mu <;> simp [rStmt]
-  | assign x subs e => simp [rStmt]; omega
-  | opAssign x subs k e => simp [rStmt]; omega
+  | assign x subs e => simp [rStmt, rTarget]
+  | opAssign x subs k e => simp [rStmt, rTarget]
 
 theorem pProg_complete (g : Gram) (n : Nat) (ss : List Stmt) (hne : ss ≠ []) (h : ∀ s ∈ ss, costStmt s ≤ n ∧ okStmt g s) :
     pProg g n (rProg g ss) = some ss := by
